@@ -1,12 +1,12 @@
 //! C09 — encapsulation calls are total and failure-atomic.
 
 use crate::common::*;
-use crate::engine::{bx, guard, hash_of, GenPart, Property, Stats, Tier};
+use crate::engine::{bx, guard, hash_of, EnumPart, GenPart, Property, Stats, Tier};
 use crate::oracle::refcodec::{self, Parsed};
 use dvb_gse_rust::gse_encap::{encap_frag_preview, encap_preview, ContextFrag, EncapMetadata, EncapStatus};
 use proptest::prelude::*;
 use serde::{Deserialize, Serialize};
-use serde_json::json;
+use serde_json::{json, Value};
 
 #[derive(Clone, Debug, PartialEq, Eq, Hash, Serialize, Deserialize)]
 pub enum PrefixOp {
@@ -316,12 +316,64 @@ fn check(c: &Case, st: &mut Stats) -> Result<(), String> {
     Ok(())
 }
 
+// ---- enumerated grids ---------------------------------------------------------------------------------
+
+const GRID: u64 = 4201; // lengths 0..=4200
+const GRID_B: u64 = 4301; // buffers 0..=4300
+
+/// encap after one packet to alphabet label 0: PDU length x {same label, other 6-byte, 3-byte, broadcast}
+/// x buffers 0..=16 and exact fit -8..=+8
+fn first_grid(i: u64) -> Case {
+    let (len, rest) = (i % GRID, i / GRID);
+    let (labkind, k) = (rest % 4, rest / 4);
+    let buf = if k < 17 { BufSpec::Abs(k as u32) } else { BufSpec::FitPlus(k as i32 - 17 - 8) };
+    Case {
+        prefix: vec![PrefixOp::Send(0)],
+        call: CallSpec::Encap { pdu: Pdu { len: len as u32, seed: 3 + len as u32 }, lab: alpha_label(labkind as u8), ptype: 0x0600 + ((len * 7919) % (0x10000 - 0x0600)) as u16, frag_id: (len % 256) as u8, buf },
+        follow: (len % 4) as u8,
+    }
+}
+
+/// encap_frag with r bytes remaining and a buffer of b bytes
+fn cont_grid(i: u64) -> Case {
+    let (r, b) = (i / GRID_B, i % GRID_B);
+    Case {
+        prefix: vec![PrefixOp::Send(0)],
+        call: CallSpec::EncapFrag { pdu: Pdu { len: (r + 5) as u32, seed: 3 + r as u32 }, frag_id: (r % 256) as u8, crc: 0xFACE_0000 | r as u32, pos: 5, pos_mode: 3, buf: BufSpec::Abs(b as u32) },
+        follow: (r % 4) as u8,
+    }
+}
+
+fn check_first_grid(i: u64, st: &mut Stats) -> Result<(), String> {
+    check(&first_grid(i), st)
+}
+
+fn check_cont_grid(i: u64, st: &mut Stats) -> Result<(), String> {
+    check(&cont_grid(i), st)
+}
+
 pub fn property() -> Property {
     Property {
         id: "C09",
         rule: "a prior state (0..4 successful sends over a 4-label alphabet, resets, settings changes) then one call of encap / encap_ext / encap_frag / encap_preview / encap_frag_preview with PDU 0..=70000, buffer 0..=70000 (weighted to buffer > 4097 with PDU > 4095 and to header thresholds), any label incl. zero and explicit re-use, any protocol type, any context (inside, at the end, beyond the PDU), 0..4 extensions in valid and invalid combinations; oracle: no panic; on Err the buffer is byte-identical, the encapsulator equals its snapshot and a follow-up packet equals the one a twin that never made the call emits; Ok is a violation for zero label / protocol type 0x0100..=0x05FF / total length > 65535 / context beyond the PDU. non-trivial = the call returned Err, or buffer > 4097 with more than 4095 bytes to send",
         assumptions: &["Encapsulator's derived Clone/PartialEq expose its whole state; the follow-up twin makes the comparison independent of private fields"],
-        parts: vec![Box::new(GenPart {
+        parts: vec![Box::new(EnumPart {
+            name: "encap-grid",
+            rule: "after one packet to a 6-byte label: encap for every PDU length 0..=4200 x {same label, another 6-byte label, 3-byte, broadcast} x buffers 0..=16 and exact fit -8..=+8 (exhaustive); same oracle",
+            size: |_| GRID * 4 * 34,
+            exhaustive: |_| true,
+            check: check_first_grid,
+            describe: |_t, i| serde_json::to_value(first_grid(i)).unwrap_or(Value::Null),
+            required_classes: &["encap", "err", "ok", "follow-up-substituted"],
+        }), Box::new(EnumPart {
+            name: "encap-frag-grid",
+            rule: "encap_frag for every pair (remaining length 0..=4200, buffer 0..=4300), 18 M pairs, exhaustive; same oracle",
+            size: |_| GRID * GRID_B,
+            exhaustive: |_| true,
+            check: check_cont_grid,
+            describe: |_t, i| serde_json::to_value(cont_grid(i)).unwrap_or(Value::Null),
+            required_classes: &["encap_frag", "err", "ok"],
+        }), Box::new(GenPart {
             name: "single-call",
             rule: "see property rule",
             cases: (1_500_000, 30_000_000),
